@@ -794,6 +794,8 @@ def Ctx.memberEventAllowed (a : Ctx) (e : Event) (sig3pid : Bool) : R Unit := do
     | none => pure 0
     | some s =>
       if newMember.membership != b!"invite" then pure 0
+      -- thirdPartyInviteToken: an empty token is refused before any lookup (e67b893)
+      else if s.token.isEmpty then notAllowed
       else match a.provider.thirdPartyInvite s.token with
       | none => notAllowed
       | some tpe => match decodeThirdPartyInviteKeys tpe.content with
